@@ -16,14 +16,15 @@
 (***************************************************************************)
 EXTENDS Integers, Sequences, FiniteSets, TLC
 
-CONSTANTS N, MaxOps
+CONSTANTS N, MaxOps, WithTxn
 Ids == 1..N
 NoRow == -1
 
 VARIABLES a,        \* [Ids -> NoRow or the row's a value]
+          txn,      \* <<>> or <<snapshot of a at BEGIN>> (one handle, no savepoints)
           nops, hist
-vars == <<a, nops, hist>>
-view == <<a, nops>>
+vars == <<a, txn, nops, hist>>
+view == <<a, txn, nops>>
 
 Present == {i \in Ids : a[i] # NoRow}
 InRange(lo, hi) == {i \in Present : lo <= i /\ i <= hi}
@@ -37,10 +38,12 @@ Probes == [count |-> Card(Present),
            min |-> IF Present = {} THEN NoRow ELSE CHOOSE i \in Present : \A j \in Present : i <= j,
            max |-> IF Present = {} THEN NoRow ELSE CHOOSE i \in Present : \A j \in Present : i >= j]
 
-Init == a = [i \in Ids |-> NoRow] /\ nops = 0 /\ hist = <<>>
+Init == a = [i \in Ids |-> NoRow] /\ txn = <<>> /\ nops = 0 /\ hist = <<>>
 
-Step(op, n, newa) == /\ nops < MaxOps /\ a' = newa /\ nops' = nops + 1
-                     /\ hist' = Append(hist, [op |-> op, n |-> n,
+StepT(op, n, newa, newtxn) ==
+                     /\ nops < MaxOps /\ a' = newa /\ txn' = newtxn /\ nops' = nops + 1
+                     /\ hist' = Append(hist, [op |-> op, n |-> n, intxn |-> newtxn # <<>>,
+                                             rows |-> {<<i, newa[i]>> : i \in {j \in Ids : newa[j] # NoRow}},
                                              probes |-> [count |-> Card({i \in Ids : newa[i] # NoRow}),
                                                          pts |-> [i \in ProbeIds \cap Ids |-> newa[i]],
                                                          eq0 |-> Card({i \in Ids : newa[i] = 0}), eq3 |-> Card({i \in Ids : newa[i] = 3}),
@@ -48,13 +51,17 @@ Step(op, n, newa) == /\ nops < MaxOps /\ a' = newa /\ nops' = nops + 1
                                                          r1 |-> Card({i \in 60..70 : i \in Ids /\ newa[i] # NoRow}),
                                                          r2 |-> Card({i \in 120..260 : i \in Ids /\ newa[i] # NoRow}),
                                                          r3 |-> Card({i \in (N - 5)..N : newa[i] # NoRow})]])
+Step(op, n, newa) == StepT(op, n, newa, txn)
 
 Lens == {1, 7, 8, 9, 40, 100, 150}
 \* INSERT of the run lo..lo+len-1 (all absent), ascending / descending / interleaved order; a = id % 10
-InsertRun == \E lo \in {1, 2, 50, 64, 100, 129, 200, 250, 300}, len \in Lens, ord \in {"asc", "desc", "evens_then_odds"} :
+InsertRunOf(LenSet) == \E lo \in {1, 2, 50, 64, 100, 129, 200, 250, 300, 350, 450}, len \in LenSet, ord \in {"asc", "desc", "evens_then_odds"} :
                 LET run == lo..(lo + len - 1) IN
                 /\ run \subseteq Ids /\ \A i \in run : a[i] = NoRow
                 /\ Step([k |-> "insert_run", lo |-> lo, len |-> len, ord |-> ord], len, [i \in Ids |-> IF i \in run THEN i % 10 ELSE a[i]])
+InsertRun == InsertRunOf(Lens)
+\* inside a transaction long runs are preferred, so that walks contain COMMITs of several hundred rows (many dirty pages)
+InsertBigInTxn == txn # <<>> /\ \E w \in 1..20 : InsertRunOf({150})
 DeleteRange == \E lo \in {1, 8, 60, 64, 100, 128, 200, 256}, len \in Lens :
                 LET hit == InRange(lo, lo + len - 1) IN
                 /\ hit # {}
@@ -68,9 +75,13 @@ UpdateRange == \E lo \in {1, 8, 60, 64, 100, 128, 200, 256}, len \in Lens :
                 LET hit == InRange(lo, lo + len - 1) IN
                 /\ hit # {}
                 /\ Step([k |-> "update_range", lo |-> lo, hi |-> lo + len - 1], Card(hit), [i \in Ids |-> IF i \in hit THEN a[i] + 1 ELSE a[i]])
-Reopen == Step([k |-> "reopen"], 0, a)
+Reopen == txn = <<>> /\ Step([k |-> "reopen"], 0, a)
+Begin == WithTxn /\ txn = <<>> /\ StepT([k |-> "begin"], 0, a, <<a>>)
+Commit == txn # <<>> /\ StepT([k |-> "commit"], 0, a, <<>>)
+Rollback == txn # <<>> /\ StepT([k |-> "rollback"], 0, txn[1], <<>>)
 
 Next == InsertRun \/ InsertRun \/ DeleteRange \/ DeleteEq \/ UpdateRange \/ (\E w \in 1..40 : Reopen)
+        \/ (\E w \in 1..160 : Begin) \/ (\E w \in 1..40 : Commit) \/ (\E w \in 1..40 : Rollback) \/ InsertBigInTxn
 Spec == Init /\ [][Next]_vars
 
 \* the model's own sanity: counts are consistent with the point view
